@@ -46,6 +46,17 @@ Qed.
 Lemma expandtabs_no_lf l col : no_lf l -> no_lf (expandtabs l col).
 Proof. unfold no_lf. rewrite expandtabs_count. auto. Qed.
 
+Lemma leading_blanks_split l : leading_blanks l ++ skipn (length (leading_blanks l)) l = l.
+Proof. induction l as [|c r IH]; [reflexivity|]. cbn [leading_blanks]. destruct (is_blank_m c); [cbn; rewrite IH; reflexivity|reflexivity]. Qed.
+
+Lemma expand_margin_count l : countN LF (expand_margin l) = countN LF l.
+Proof.
+  unfold expand_margin. rewrite countN_app, expandtabs_count, <- countN_app, leading_blanks_split. reflexivity.
+Qed.
+
+Lemma expand_margin_no_lf l : no_lf l -> no_lf (expand_margin l).
+Proof. unfold no_lf. rewrite expand_margin_count. auto. Qed.
+
 Lemma strip_margin_no_lf m l : no_lf l -> no_lf (strip_margin m l).
 Proof.
   intros H. unfold strip_margin. destruct m as [m|]; [|exact H].
@@ -62,7 +73,7 @@ Proof.
   - destruct (IH st' margin Hr) as [A B]. split; [cbn [length]; rewrite A; reflexivity|constructor; assumption].
   - set (m' := match margin with None => _ | Some _ => margin end).
     destruct (IH st' m' Hr) as [A B]. split; [cbn [length]; rewrite A; reflexivity|].
-    constructor; [apply strip_margin_no_lf, expandtabs_no_lf; exact Hl|exact B].
+    constructor; [apply strip_margin_no_lf, expand_margin_no_lf; exact Hl|exact B].
 Qed.
 
 (* re-margining never changes the number of lines: line k of the adjusted block is line k of
@@ -90,6 +101,17 @@ Proof.
   cbn [orb]. rewrite (IH Hr). reflexivity.
 Qed.
 
+Lemma simple_leading l : simple l -> simple (leading_blanks l).
+Proof.
+  unfold simple. induction l as [|c r IH]; intros H; [reflexivity|]. cbn [forallb] in H. apply andb_true_iff in H as [Hc Hr].
+  cbn [leading_blanks]. destruct (is_blank_m c); [|reflexivity]. cbn [forallb]. rewrite Hc, (IH Hr). reflexivity.
+Qed.
+
+Lemma simple_expand_margin l : simple l -> expand_margin l = l.
+Proof.
+  intros H. unfold expand_margin. rewrite (simple_expandtabs _ (simple_leading l H) 0). apply leading_blanks_split.
+Qed.
+
 Lemma simple_scan l : simple l -> forall skip, scan_line l None skip = None.
 Proof.
   unfold simple. induction l as [|c r IH]; intros H skip; [reflexivity|]. cbn [forallb] in H. apply andb_true_iff in H as [Hc Hr].
@@ -115,7 +137,7 @@ Theorem margin_removed_uniformly m ls :
 Proof.
   induction ls as [|l r IH]; intros H; [reflexivity|]. inversion H as [|? ? Hl Hr]; subst.
   cbn [adjust_lines map]. unfold in_multi_line. cbn [backslashed triple m0 orb].
-  rewrite (simple_scan l Hl 0), (simple_no_backslash l Hl), (simple_expandtabs l Hl 0).
+  rewrite (simple_scan l Hl 0), (simple_no_backslash l Hl), (simple_expand_margin l Hl).
   change {| backslashed := false; triple := None |} with m0. rewrite (IH Hr). reflexivity.
 Qed.
 
@@ -129,7 +151,7 @@ Theorem first_code_line_sets_margin l rest :
     skipn (length (leading_blanks l)) l :: adjust_lines rest m0 (Some (leading_blanks l)).
 Proof.
   intros Hl Hs. cbn [adjust_lines]. unfold in_multi_line. cbn [backslashed triple m0 orb].
-  rewrite (simple_scan l Hl 0), (simple_no_backslash l Hl), (simple_expandtabs l Hl 0), Hs.
+  rewrite (simple_scan l Hl 0), (simple_no_backslash l Hl), (simple_expand_margin l Hl), Hs.
   change {| backslashed := false; triple := None |} with m0. f_equal.
   assert (E : forall x, x = leading_blanks x ++ skipn (length (leading_blanks x)) x).
   { induction x as [|c x' IHx]; [reflexivity|]. cbn [leading_blanks]. destruct (is_blank_m c); [cbn [app length skipn]; f_equal; exact IHx|reflexivity]. }
@@ -180,6 +202,6 @@ Theorem flush_replaces_margin ind m body rest :
   flush_lines ind ((m ++ body) :: rest) p0 (Some m) =
     (match m with [] => ind ++ body | _ => ind ++ body end) :: flush_lines ind rest p0 (Some m).
 Proof.
-  intros Hs Hp. cbn [flush_lines]. rewrite Hp. rewrite (simple_expandtabs _ Hs 0). f_equal.
+  intros Hs Hp. cbn [flush_lines]. rewrite Hp. rewrite (simple_expand_margin _ Hs). f_equal.
   unfold indent_line. destruct m as [|c m']; [reflexivity|]. rewrite strip_prefix_app. reflexivity.
 Qed.
